@@ -98,15 +98,21 @@ package req
 // rwConnect: the method is CONNECT - its request target is the authority (host:port), also when written for a proxy
 //@ ghost var rwConnect bool
 //@ ghost var rwConnSeen bool
+//@ ghost var rwPA bool
 //@ func write(req, w, usingProxy) err
 //@   props C11
 //@   abstract
 //@   noinline
-//@   modifies rwHdr, rwCL, rwHostEmpty, rwUH, rwUHArr, rwConnect, rwConnSeen
+//@   modifies rwHdr, rwCL, rwHostEmpty, rwUH, rwUHArr, rwConnect, rwConnSeen, rwPA
 //@   ghostset-at-entry rwHdr = 0
 //@   ghostset-at-entry rwCL = -5
 //@   ghostset after RequestHeader.SetContentLength: rwCL = arg1
-//@   assert before WriteBinary#0: rwHdr == 0
+// (the URL-encoded form is the body of last resort for EVERY method: a request is only declared bodiless - IgnoreBody
+// consulted, header written without a body - after the post args were asked for)
+//@   ghostset-at-entry rwPA = false
+//@   ghostset after Request.PostArgString: rwPA = true
+//@   assert before RequestHeader.IgnoreBody: rwPA
+//@   assert before WriteBinary#0: rwHdr == 0 && (hasBody || rwPA)
 //@   ghostset after WriteBinary#0: rwHdr = 1
 //@   assert before WriteBinary#1: rwHdr == 1 && rwCL == len(arg1) && hasBody
 //@   ghostset after WriteBinary#1: rwHdr = 2
